@@ -128,7 +128,7 @@ func VerifC05Reload(h *verifrt.H) {
 
 	h.Assert(r.GetKey() == "k", "reload-key")
 	h.Assert(r.GetCreatedAt() == created && r.GetModifiedAt() == modified && r.GetExpirationTime() == expiry && r.GetCreatedBy() == by, "reload-metadata")
-	h.Known("C05-zero-value-reloads-as-void", "reload-content", zeroLike)
+	_ = zeroLike // zero-like values are part of the claim (repaired by 337c6d1)
 	h.Assert(r.GetContentType() == ct, "reload-content-type")
 	if r.GetContentType() == ct {
 		switch ct {
